@@ -34,6 +34,10 @@ fn forms(f: &str, items: &[String]) -> Vec<(&'static str, String)> {
         ("list", format!("{}({})", f, list)),
         ("separate", format!("{}({})", f, items.join(", "))),
         ("spread", format!("{}(...{})", f, list)),
+        // several spreads in one call, an empty one first / in the middle / last
+        ("spread", format!("{}(...[], ...{})", f, list)),
+        ("spread", format!("{}(...[{}], ...[], ...[{}])", f, items[..items.len() / 2].join(", "), items[items.len() / 2..].join(", "))),
+        ("spread", format!("{}(...{}, ...[])", f, list)),
     ]
 }
 
@@ -137,7 +141,8 @@ pub fn record(seed: u64, n: usize) -> Vec<J> {
                 let (pinf, ninf) = (ds.iter().any(|x| *x == f64::INFINITY), ds.iter().any(|x| *x == f64::NEG_INFINITY));
                 let tame = ds.iter().all(|x| x.is_infinite() || x.abs() < 1e300);
                 let expected = if (f == "sum" || f == "avg") && (pinf != ninf) && tame { mv::hex(if pinf { f64::INFINITY } else { f64::NEG_INFINITY }) } else { "n/a".to_string() };
-                out.push(json!({"ev":"conv","f":f,"list":obs[0],"separate":obs[1],"spread":obs[2],"member":member,"expected":expected,"src":fs[1].1}));
+                let spread = if obs[3..].iter().all(|o| *o == obs[2]) { obs[2].clone() } else { format!("spread forms differ: {:?}", &obs[2..]) };
+                out.push(json!({"ev":"conv","f":f,"list":obs[0],"separate":obs[1],"spread":spread,"member":member,"expected":expected,"src":fs[1].1}));
             }
         }
         crate::ev::clear_stats();
